@@ -103,12 +103,12 @@ def coords(axis, n):
     return [None] * n
 
 
-def members(e):
+def members(e, line_ref=None):
     """object array over the ensemble shape: what identifies each member (axis coordinates, positions, seeds,
-    distribution values and weights, array data)"""
+    distribution values and weights, array data).  `line_ref` = start of the whole LineScan: the `r` axis of a LineScan
+    block is measured from the block's own start, so it is mapped back through the distance of that start from `line_ref`"""
     import abtem
     from abtem.array import ArrayObject
-    from abtem.distributions import BaseDistribution
 
     shape = tuple(e.ensemble_shape)
     out = np.empty(shape, dtype=object)
@@ -119,9 +119,9 @@ def members(e):
     if scan is not None and len(scan.ensemble_shape):
         npos = len(scan.ensemble_shape)  # the scan axes are the last ensemble axes of a wave builder
         pos = np.asarray(scan.get_positions(), dtype=float).reshape(tuple(scan.ensemble_shape) + (2,))
-    # a LineScan block is a LineScan of its own: its `r` axis is measured from the block's start by construction,
-    # the members are identified by their positions
-    skip_axes = isinstance(scan, abtem.LineScan)
+    shift = 0.0
+    if isinstance(scan, abtem.LineScan) and line_ref is not None:
+        shift = float(np.linalg.norm(np.array(scan.start, dtype=float) - np.array(line_ref, dtype=float)))
     dists = []
     if hasattr(e, "_distribution_properties"):
         dists = list(e._distribution_properties.values())
@@ -129,28 +129,44 @@ def members(e):
     if isinstance(e, ArrayObject):
         arr = np.asarray(e.compute().array) if e.is_lazy else np.asarray(e.array)
     for idx in np.ndindex(*shape):
-        d = [type(a).__name__ + ":" + repr(_norm(coords(a, shape[i])[idx[i]])) for i, a in enumerate(axes)
-             if not (skip_axes and i >= len(shape) - npos)]
+        d = []
+        for i, a in enumerate(axes):
+            v = coords(a, shape[i])[idx[i]]
+            if isinstance(scan, abtem.LineScan) and i >= len(shape) - npos and isinstance(v, (float, np.floating)):
+                v = float(v) + shift
+            d.append((type(a).__name__, _plain(v)))
         if pos is not None:
-            d.append("pos:" + repr(_norm(tuple(pos[idx[len(shape) - npos:]]))))
+            d.append(("pos", _plain(tuple(pos[idx[len(shape) - npos:]]))))
         if isinstance(e, abtem.FrozenPhonons):
-            d.append("seed:" + repr(int(e.seed[idx[0]])))
+            d.append(("seed", int(e.seed[idx[0]])))
         for i, dist in enumerate(dists):
-            d.append("dist:" + repr(_norm((float(np.asarray(dist.values)[idx[i]]), float(np.asarray(dist.weights)[idx[i]])))))
+            d.append(("dist", (float(np.asarray(dist.values)[idx[i]]), float(np.asarray(dist.weights)[idx[i]]))))
         if arr is not None:
-            d.append("data:" + repr(_norm(tuple(arr[idx].ravel()[:2]))))
+            d.append(("data", _plain(tuple(arr[idx].ravel()[:2]))))
         out[idx] = tuple(d)
     return out
 
 
-def _norm(v):
+def _plain(v):
     if isinstance(v, (tuple, list, np.ndarray)):
-        return tuple(_norm(x) for x in v)
+        return tuple(_plain(x) for x in v)
     if isinstance(v, (float, np.floating)):
-        return round(float(v), 4)
+        return float(v)
     if isinstance(v, (int, np.integer)):
         return int(v)
     return v
+
+
+def same(a, b, tol=2e-6):
+    """member descriptors agree: exact for labels / ints / strings, floats to 2e-6 (scan positions are float32)"""
+    if isinstance(a, (tuple, list)) and isinstance(b, (tuple, list)):
+        return len(a) == len(b) and all(same(x, y, tol) for x, y in zip(a, b))
+    if isinstance(a, float) or isinstance(b, float):
+        try:
+            return abs(float(a) - float(b)) <= tol * max(1.0, abs(float(a)), abs(float(b)))
+        except (TypeError, ValueError):
+            return False
+    return a == b
 
 
 def blocks_of(e, chunks, mode):
@@ -357,7 +373,11 @@ class C19(Property):
         chunks = chunks_arg(c)
         if isinstance(chunks, tuple) and len(chunks) != len(e.ensemble_shape):
             return
-        full = members(e)
+        import abtem
+
+        sc = e if isinstance(e, abtem.scan.BaseScan) else getattr(e, "scan_positions", None)
+        line_ref = sc.start if isinstance(sc, abtem.LineScan) else None
+        full = members(e, line_ref)
         results = {}
         for mode in ("eager", "lazy"):
             try:
@@ -369,7 +389,7 @@ class C19(Property):
             hits = np.zeros(e.ensemble_shape, dtype=int)
             bad = None
             for i, s, b in blocks:
-                m = members(b)
+                m = members(b, line_ref)
                 want = tuple(sl.stop - sl.start for sl in s)
                 if m.shape != want:
                     bad = {"block": list(i), "block_shape": list(m.shape), "expected": list(want)}
@@ -381,18 +401,15 @@ class C19(Property):
             if bad is None and not (hits == 1).all():
                 bad = {"hits": hits.tolist()}
             if bad is None:
-                diff = [(list(i), list(asm[i]), list(full[i])) for i in np.ndindex(*full.shape) if asm[i] != full[i]]
+                diff = [(list(i), list(asm[i]), list(full[i])) for i in np.ndindex(*full.shape) if not same(asm[i], full[i])]
                 if diff:
                     bad = {"index": diff[0][0], "from_blocks": diff[0][1], "original": diff[0][2]}
             results[mode] = ("ok", asm.tolist()) if bad is None else ("bad", bad)
             if bad is not None:
-                tag = [p.split(":")[0] for p, q in zip(bad.get("from_blocks", []), bad.get("original", [])) if p != q]
+                tag = [p[0] for p, q in zip(bad.get("from_blocks", []), bad.get("original", [])) if not same(p, q)]
                 ctx.violation(f"{kind.split('[')[0]}-blocks-do-not-reassemble:{'+'.join(sorted(set(tag))) or 'shape'}", c, {"mode": mode, **bad})
         valid = not isinstance(chunks, int) or chunks >= 1
-        if valid and results["eager"][0] == "err" and results["lazy"][0] == "err" and results["eager"][1] == results["lazy"][1] == "value_error" \
-                and "dtype" in results["eager"][2]:
-            return
-        if results["eager"][0] != results["lazy"][0] or (results["eager"][0] == "ok" and results["eager"][1] != results["lazy"][1]):
+        if results["eager"][0] != results["lazy"][0] or (results["eager"][0] == "ok" and not same(results["eager"][1], results["lazy"][1])):
             ctx.violation(f"{kind.split('[')[0]}-lazy-ne-eager-partition", c, {"eager": results["eager"][:2], "lazy": results["lazy"][:2]})
         elif results["eager"][0] == "err" and valid:
             if c["kind"] == "grid" and c["endpoint"] and list(c["gpts"]) == [1, 1] and "extent must be positive" in results["eager"][2]:
@@ -400,6 +417,27 @@ class C19(Property):
                 ctx.violation("grid-single-point-endpoint-scan-cannot-be-partitioned", c, {"eager": results["eager"], "lazy": results["lazy"]})
             else:
                 ctx.violation(f"{kind.split('[')[0]}-valid-chunks-rejected", c, {"eager": results["eager"]})
+        # split and re-join: forward slices / blocks along the first ensemble axis, concatenated, are the original object
+        if c["kind"] == "images" and isinstance(chunks, tuple) and chunks and isinstance(chunks[0], tuple):
+            from abtem.array import concatenate
+
+            cs0 = chunks[0]
+            bounds = [(sum(cs0[:i]), sum(cs0[: i + 1])) for i in range(len(cs0))]
+            whole = tuple((n,) for n in e.ensemble_shape[1:])
+            for how in ("slices", "blocks"):
+                try:
+                    if how == "slices":
+                        pieces = [e[a:b] for a, b in bounds]
+                    else:
+                        pieces = [b.item() for _, _, b in e.generate_blocks((cs0,) + whole)]
+                    joined = concatenate(pieces, axis=0)
+                    mj = members(joined)
+                except Exception as ex:  # noqa
+                    ctx.violation(f"array-split-and-rejoin-raises:{how}", c, {"error": f"{type(ex).__name__}: {ex}"[:200]})
+                    continue
+                if mj.shape != full.shape or any(not same(mj[i], full[i]) for i in np.ndindex(*full.shape)):
+                    ctx.violation(f"array-split-and-rejoin-differs:{how}", c, {"joined_shape": list(mj.shape), "original_shape": list(full.shape)})
+            ctx.count("rejoin:" + ",".join(c["axes"][:1]))
         # the raw partitioners with chunks that are not yet validated (None, ints): eager must accept what lazy accepts
         if c["kind"] == "images" and not c.get("lazy"):
             for ch in (None, 1, tuple(1 for _ in c["shape"])):
